@@ -214,6 +214,67 @@ where
     }
 }
 
+/// Read-only snapshot of the pool state for one token, for the verification harness.
+#[cfg(feature = "verif-hooks")]
+#[derive(Debug, Clone, PartialEq, Eq)]
+pub struct VerifPoolSnapshot {
+    /// Numeric token value.
+    pub token: usize,
+    /// Visitor result for every idle connection, oldest first.
+    pub idle: Vec<u64>,
+    /// Number of queued waiters whose receiver is still alive.
+    pub waiters_live: usize,
+    /// Number of queued waiters whose receiver is gone.
+    pub waiters_closed: usize,
+    /// Is a multiplexed connection attempt marked as in flight?
+    pub connecting: bool,
+}
+
+#[cfg(feature = "verif-hooks")]
+impl<C, B, K> Pool<C, B, K>
+where
+    B: Send + 'static,
+    C: PoolableConnection<B>,
+    K: Key,
+{
+    pub(crate) fn verif_snapshot<F>(&self, visit: F) -> Vec<VerifPoolSnapshot>
+    where
+        F: Fn(&C) -> u64,
+    {
+        let inner = self.inner.lock();
+        let mut tokens: Vec<Token> = inner
+            .idle
+            .keys()
+            .chain(inner.waiting.keys())
+            .chain(inner.connecting.iter())
+            .copied()
+            .collect();
+        tokens.sort_by_key(|t| t.verif_value());
+        tokens.dedup();
+        tokens
+            .into_iter()
+            .map(|token| {
+                let waiters = inner.waiting.get(&token);
+                VerifPoolSnapshot {
+                    token: token.verif_value(),
+                    idle: inner
+                        .idle
+                        .get(&token)
+                        .map(|idle| idle.verif_iter().map(&visit).collect())
+                        .unwrap_or_default(),
+                    waiters_live: waiters
+                        .map(|w| w.iter().filter(|tx| !tx.is_closed()).count())
+                        .unwrap_or(0),
+                    waiters_closed: waiters
+                        .map(|w| w.iter().filter(|tx| tx.is_closed()).count())
+                        .unwrap_or(0),
+                    connecting: inner.connecting.contains(&token),
+                }
+            })
+            .collect()
+    }
+}
+
 pub(in crate::client) struct PoolRef<C, B>
 where
     C: PoolableConnection<B>,
